@@ -148,6 +148,19 @@ def check_learn(chk, rep, repo):
     # L3 best model
     loops = [li for li in w.loops.values() if li.kind in ("while", "for") and not li.loops]
     scans = [bs for li in loops for bs in find_best_scans(w, li)]
+    if not scans:
+        # no running-best scan: if a deep snapshot of the classifier is nevertheless taken inside the loop, the test that
+        # guards it is not "this iteration beats the best accuracy so far" - which is the violation
+        from ..ir import facts
+        snaps = [e for e in w.events if e.kind == "bind" and e.loops and e.value[0] == "alloc"
+                 and e.value[1] in ("copy.deepcopy", "copy.copy") and e.value[2] == (("self",),)]
+        if snaps:
+            e = snaps[0]
+            own = [f for f in facts(e.guards) if f not in facts(w.loops[e.loops[0]].guards)]
+            rep.ev("L3-strict", e, False,
+                   f"the snapshot is taken under '{' and '.join(show(f)[:60] for f in own) or 'no test'}', not under a comparison of "
+                   "this iteration's accuracy with the best accuracy seen so far: a later, worse model can replace the best one")
+            return
     if len(scans) != 1:
         raise AnalysisError(f"SupervisedOPF.learn: expected one best-so-far scan, found {len(scans)}")
     bs = scans[0]
